@@ -31,6 +31,44 @@ type internalHandler struct {
 	filter         any // Predicate function for filtering events
 	mu             sync.Mutex
 	executed       uint32 // For once handlers, atomically tracks if executed
+
+	// Ticket queue for Async+Sequential dispatch: tickets are taken by the publisher
+	// in publish order and the handler goroutines run in ticket order.
+	seqMu      sync.Mutex
+	seqCond    *sync.Cond
+	seqNext    uint64 // next ticket to hand out
+	seqServing uint64 // ticket whose goroutine may run
+}
+
+// takeTicket reserves the next position in this handler's processing order.
+func (h *internalHandler) takeTicket() uint64 {
+	h.seqMu.Lock()
+	t := h.seqNext
+	h.seqNext++
+	h.seqMu.Unlock()
+	return t
+}
+
+// waitTurn blocks until every earlier ticket has finished.
+func (h *internalHandler) waitTurn(ticket uint64) {
+	h.seqMu.Lock()
+	if h.seqCond == nil {
+		h.seqCond = sync.NewCond(&h.seqMu)
+	}
+	for h.seqServing != ticket {
+		h.seqCond.Wait()
+	}
+	h.seqMu.Unlock()
+}
+
+// endTurn lets the next ticket run.
+func (h *internalHandler) endTurn() {
+	h.seqMu.Lock()
+	h.seqServing++
+	if h.seqCond != nil {
+		h.seqCond.Broadcast()
+	}
+	h.seqMu.Unlock()
 }
 
 // PanicHandler is called when a handler panics
@@ -406,9 +444,21 @@ func PublishContext[T any](bus *EventBus, ctx context.Context, event T) {
 		if h.async {
 			wg.Add(1)
 			bus.wg.Add(1)
+			// Async+Sequential: fix this event's place in the handler's order now,
+			// in the publisher's goroutine, so that events published one after
+			// another are processed in that order.
+			ordered := h.sequential
+			var ticket uint64
+			if ordered {
+				ticket = h.takeTicket()
+			}
 			go func(handler *internalHandler) {
 				defer wg.Done()
 				defer bus.wg.Done()
+				if ordered {
+					handler.waitTurn(ticket)
+					defer handler.endTurn()
+				}
 
 				// Check context before executing
 				select {
